@@ -383,3 +383,17 @@ Definition numpy_slice (file : list Z) (sl : list idx) (shape : list Z) (w off :
   c <- canonical_slicers true sl shape ;;
   let '(s, e) := np_index [] o shape c (array_elems file shape w off) in
   Ok (s, concat e).
+
+(* decidable validity of a canonical index for a shape (hypothesis of the main theorem) *)
+Definition valid_cidxb (n : Z) (c : cidx) : bool :=
+  match c with CInt k => (0 <=? k) && (k <? n) | CSl s => negb (step_of s =? 0) | CNew => false end.
+Fixpoint ix_validb (shape : list Z) (ix : list cidx) : bool :=
+  match ix with
+  | [] => match shape with [] => true | _ => false end
+  | CNew :: r => ix_validb shape r
+  | c :: r => match shape with n :: sh => (0 <=? n) && valid_cidxb n c && ix_validb sh r | [] => false end
+  end.
+
+
+Definition canonical_valid (sl : list idx) (shape : list Z) : res bool :=
+  c <- canonical_slicers true sl shape ;; Ok (ix_validb shape c).
